@@ -238,6 +238,9 @@ def ldap_schema(ctx, report):
     # every parsed message would carry the edits made to earlier messages (rule shared with C13.R5)
     from .c13 import shared_containers
     shared_containers(ctx, report, RULE='C09.R9', only=lambda k: k.module.name in MODULES)
+    from .c11 import numeric_widths_shared
+    numeric_widths_shared(ctx, report, 'C09.R10', 'fixed width integers (MySQL int<3> lengths, TPKT / COTP lengths): every width and byte order is written '
+                          'exactly, a value that does not fit is refused, never truncated')
     from ..ldapbridge import evaluate as evaluate_bridge
     ldap_all = ldap['evaluated'] and evaluate_bridge(ctx)['evaluated']
     rejections.check(ctx, report, 'C09.R8', 'opp', skip=(lambda construct: ldap_all and 'tls/ldap.py:LDAP' in construct))
